@@ -1,11 +1,13 @@
 #!/usr/bin/env python3
-"""C14 — every HTTP request to the broker gets a well-formed response (DESIGN.md §3 C14, tier 1)."""
+"""C14 — every HTTP request to the broker gets a well-formed response (DESIGN.md §3 C14: tier 1 under the
+scheduler, tier 2 against the broker binary)."""
 import os
 import sys
 
 sys.path.insert(0, os.path.join(os.path.dirname(os.path.abspath(__file__)), "..", "lib"))
 import sched  # noqa: E402
 import vlib  # noqa: E402
+import c14_t2  # noqa: E402
 from broker_common import build_broker  # noqa: E402
 
 
@@ -25,6 +27,8 @@ def main():
         passes.append({"harness": "c14", "cfg": {"requests": "3", "alphabet": "reduced"}, "budget_s": 300, "label": "all ordered triples from the reduced alphabet x 3 states"})
     summary, tot, samples, exh = sched.run_passes(rep, binary, passes, 140 if tier == "quick" else 900)
     sched.sched_coverage(rep, summary, tot, samples, exh)
+    # tier 2: the same matrix as raw HTTP exchanges with the broker binary
+    c14_t2.run(rep, tier)
     rep.assumptions += [
         "handlers are registered on a fresh ServeMux with the same eight registrations main() makes (the routing table itself lives in main())",
         "a handler that returns yields a complete HTTP response in net/http; a handler panic is a dropped connection",
